@@ -290,3 +290,43 @@ def harr_check(ctx, props, focus, replay=None):
     ctx.finish('random histories of put/get/del/delidx/walk/size/clear (+relocation of the region) on capacities 2..64 with keys forced to collide, key lengths around the 16-byte limit up to 65535, '
                'value lengths around every slot boundary; plus all put/del histories of bounded depth on small tables; every op: implementation vs extracted ideal bounded map (monitor, incl. an independent '
                'well-formedness check of the dumped image) and vs extracted image model slot by slot; distinct_nontrivial = distinct (capacity, image) pairs')
+
+
+def harr_region_engine(ctx, nh, kinds, why):
+    """Extra search engine for other properties (C11: the static table never touches a byte outside the user's region;
+    C12: values come back byte for byte with their exact length): random histories on the guard-paged region, reporting
+    only monitor failures whose `observed` starts with one of `kinds`."""
+    exe, msg = ctx.cc('h_harr', CORE_SRCS, ['h_harr.c'])
+    if exe is None:
+        ctx.broken.append(('obligation:build-h_harr', msg))
+        return
+    rng = ctx.rng
+    hists = [gen_history(rng, rng.choice([2, 3, 4, 5, 8, 9, 12]), 100, rng.choice([3, 5, 8, 14]), 0.05) for _ in range(nh)]
+    lines, index = [], []
+    for hi, (hdr, ops) in enumerate(hists):
+        lines += hdr
+        for oi, o in enumerate(ops):
+            lines.append(o)
+            if not o.startswith('reloc'):
+                index.append((hi, oi))
+    data = ('\n'.join(lines) + '\n').encode()
+    rc1, o1, e1 = ctx.run([exe], inp=data, timeout=900)
+    rc2, o2, e2 = ctx.driver(['harr'], inp=data, timeout=900)
+    il = o1.decode('latin1').splitlines()
+    sl = o2.decode('latin1').splitlines()[1::2]
+    failed = set()
+    for n, (hi, oi) in enumerate(index):
+        hdr, ops = hists[hi]
+        cap = int(hdr[0].split()[1])
+        a = il[n] if n < len(il) else 'MISSING'
+        sp = sl[n] if n < len(sl) else 'MISSING'
+        ctx.cov['evaluations'] += 1
+        ctx.count('harr-region:' + ops[oi].split()[0])
+        if hi in failed:
+            continue
+        sig = monitor(ops[oi], a, sp, cap)
+        if sig is not None and any(sig['observed'].startswith(k) for k in kinds):
+            failed.add(hi)
+            sig = dict(sig, container='harr')
+            ctx.report('impl-vs-property', sig, 'static hash table (%s): %s %s' % (why, sig['op'], sig['observed']),
+                       {'ops': hdr + ops[:oi + 1], 'failing_op': ops[oi], 'impl': a[:600], 'spec': sp[:600]})
